@@ -55,7 +55,7 @@ MGF1_C = Contract(
         # constant facts about the trip count, proved once at loop entry (non-linear in hLen): at most 2^32 iterations, so
         # that every counter fits the 4 octets of C = I2OSP(counter, 4)
         'maskLen // hash_gen.digest_size <= %s' % TWO32,
-        'maskLen // hash_gen.digest_size == %s ==> maskLen %% hash_gen.digest_size == 0' % TWO32,
+        'ite(maskLen // hash_gen.digest_size == %s, maskLen %% hash_gen.digest_size, 0) == 0' % TWO32,
         '_k <= %s' % TWO32,
         'T == ' + S + 'mgf1_T(hash_gen.g_alg, mgfSeed, _k)',
         'len(T) == _k * hash_gen.digest_size']}},
@@ -115,7 +115,7 @@ EM_DOMAIN = 'emBits <= 8 * ' + TWO32
 
 def lmask_case(r):
     """the instantiation parameter of the lmask loop: emBits mod 8 == r  (z = 8 emLen - emBits = (8 - r) mod 8)"""
-    return [] if r is None else ['emBits % 8 == %d' % r]
+    return [] if r is None else ['emBits %% 8 == %d' % r]
 
 
 def emsa_verify_contract(r=None):
